@@ -271,3 +271,12 @@ func (c *symCode) render(f *File, w io.Writer, s *Statement) error {
 type verifErr struct{ msg string }
 
 func (e *verifErr) Error() string { return e.msg }
+
+func verifContainsNewline(s string) bool {
+	for i := 0; i < len(s); i++ {
+		if s[i] == '\n' {
+			return true
+		}
+	}
+	return false
+}
